@@ -19,38 +19,40 @@ from ..core import Ctx, load_corpus
 from . import sim_c07
 
 ID = "C07"
-LEVEL = "proof"
+LEVEL = "partial"
 ENGINES = ["lean-model", "kopfsim"]
 TIE = ("S: step refinement — every worker iteration (and idle retirement) of closed-loop simulations replayed through the "
        "Lean worker/processor step; the model's (expected, deadline) must be the consistency_time the next real iteration gets")
-LEVEL_TEXT = ("Lean theorems for ALL step lists of one object's stream (any event versions, arrival times, stream pressure, wake-ups incl. "
-              "the exiting watcher's, pending patches, raw-handler durations, sleep lateness, idle retirements of the worker, PATCHes by "
-              "the object's daemon/timer tasks, any consistency_timeout incl. 0 and negative). The FULL barrier clause (every framework "
-              "patch) is false of the code: barrier_background_witness + finding C07-F1 (daemon/timer result patches are never reported "
-              "to the worker), replayed on the real code on every run (corpus/C07/F1.json). Proved under the exact guard 'the PATCH was "
-              "issued by the object's worker': barrier_partial (change handlers run only after the last own patch's version was dequeued "
-              "after that patch, or >= T after the server applied it; any number of foreign events, background patches and retirements in "
-              "between), barrier_every_patch_partial (every earlier worker patch), barrier_view_partial (with per-object stream order: view "
-              ">= patch, or timeout). Full theorems: not_delayed (for ANY stage order with the barrier after a block of stages, that block's "
-              "log and clock are independent of consistency_time and stay a prefix of the final log; false for a sleep-first order: "
-              "barrier_first_delays_witness), not_delayed_kopf (kopf's order: indexing/raw-event handlers at the dequeue, spawning right "
-              "after them, sleep only then, a new arrival ends the sleep at once), interrupted_never_achieved, disabled (T=0), "
-              "deadline_monotone, retire_after_deadline, never_arrives; noop_patch_does_not_arm + noop_cycle_leaves_consistent (fix 460c956: a "
-              "PATCH answered with the version just processed arms nothing, the next event is handled as consistent) with "
-              "noop_stall_regression_witness on the pre-fix feedback (handlers starve). 'Daemons and timers keep running during the barrier' (separate tasks) is covered by the oracle only (timer ticks "
-              "on schedule during barrier sleeps, daemon spawned in the first iteration). The model is hand-written; it is tied to the code "
-              "by replaying every iteration of seeded whole-operator simulations (incl. when the low-level stages really started and the "
-              "background patches in between); the wf hypotheses of the theorems are checked on the real traces.")
+LEVEL_TEXT = ("PARTIAL by DESIGN §8's definition: (1) the barrier clause is proved only under the guard 'the PATCH was issued by the "
+              "object's worker' (barrier_partial, barrier_every_patch_partial, barrier_view_partial, barrier_every_patch_view_partial — the "
+              "last one uses the stream order so that a later no-op patch cannot discharge an earlier real one); the FULL clause (every "
+              "framework patch) is false of the code: barrier_background_witness + open finding C07-F1 (daemon/timer result patches are "
+              "never reported to the worker), replayed on the real code on every run (corpus/C07/F1.json). (2) 'raw-event handlers, "
+              "indexing, daemons and timers are not delayed' rests on the S-tie (when index/on.event handlers really started, per "
+              "iteration) and the oracle (raw handlers/indexers at the dequeue instant also in held-back iterations, timers on schedule "
+              "during barrier sleeps, daemon spawned in the first iteration); in the model it is a structural fact (Lemmas: "
+              "stages_before_barrier_independent), not counted; not_delayed_kopf adds that the sleep begins only after the low-level "
+              "stages and that a wake-up ends it at once. Unguarded theorems for ALL step lists of one object's stream (any versions, "
+              "listed or streamed events, arrival times, pressure, wake-ups incl. the exiting watcher's, pending patches, handler "
+              "durations, sleep lateness, idle retirements, background patches, any consistency_timeout): interrupted_never_achieved, "
+              "disabled (T=0), deadline_monotone, retire_after_deadline, never_arrives, noop_patch_does_not_arm, "
+              "noop_cycle_leaves_consistent (fix 460c956) with noop_stall_regression_witness on the pre-fix feedback; "
+              "listed_view_is_not_consistency_witness (a worker that trusts (re-)listed events breaks the barrier: seeded change C14c). "
+              "The model is hand-written; it is tied to the code by replaying every iteration of seeded whole-operator simulations "
+              "(incl. re-listings/reconnects inside running handlers and between a patch and its echo); the wf hypotheses of the "
+              "theorems are checked on the real traces.")
 THEOREMS = [("Kopf.Props.C07", "Kopf.C07." + n) for n in [
     "barrier_partial", "barrier_background_witness", "barrier_every_patch_partial", "barrier_view_partial",
-    "not_delayed", "not_delayed_kopf", "barrier_first_delays_witness", "interrupted_never_achieved", "disabled",
-    "deadline_monotone", "retire_after_deadline", "never_arrives", "noop_patch_does_not_arm",
-    "noop_cycle_leaves_consistent", "noop_stall_regression_witness"]]
+    "barrier_every_patch_view_partial", "not_delayed_kopf", "interrupted_never_achieved", "disabled",
+    "deadline_monotone", "retire_after_deadline", "never_arrives", "listed_view_is_not_consistency_witness",
+    "noop_patch_does_not_arm", "noop_cycle_leaves_consistent", "noop_stall_regression_witness"]]
 RULE = ("seeded whole-operator scenarios: T in {0, 0.25, 1, 5} s; request latency 1-64 ticks, response latency 0-48 ticks; echo delay of "
         "own writes in {0, < T, = T after the patch, = exactly the worker's deadline, > T}; foreign-event delay and jitter; 0-5 foreign "
         "edits before and 0-5 after each chosen own write (reactive offsets), slips right before a PATCH (422 -> remaining patch); create/"
         "update/delete handlers with temporary errors (several cycles), sleeping handlers; optional event handler (plain/slow/result-"
-        "returning incl. idempotent results = no-op writes), index, daemon, timer (plain/result-returning = background patches); idle_timeout in {0.25, 1, 5}; optional deletion. One case = one "
+        "returning incl. idempotent results = no-op writes), index, daemon, timer (plain/result-returning = background patches); idle_timeout in {0.25, 1, 5}; optional deletion; in 30 % of the histories 1-3 breaks of the watch stream (410 with "
+        "compaction -> re-listing, eof, connection reset; queued behind the pending deliveries or cutting the stream at once) timed inside a "
+        "sleeping change handler or between an own write and its echo. One case = one "
         "worker iteration; distinct & non-trivial = distinct abstracted (deadline set?, reset by arrival?, slept/woken/timed-out, "
         "held/entered, pending patch, pressure, patched?) tuples where a deadline was set or a patch was made")
 TRUSTED = ["harness/sim (virtual-time loop, fake API server, scripted handlers) + harness/props/sim_c07.py (per-event echo delay, "
@@ -59,7 +61,9 @@ TRUSTED = ["harness/sim (virtual-time loop, fake API server, scripted handlers) 
            "per-object order of the watch stream (Kubernetes' guarantee; C01/C19) for barrier_view"]
 ASSUMPTIONS = ["the barrier theorems are about PATCHes issued by the object's worker; for daemon/timer patches the clause is false (C07-F1)",
                "daemons/timers not being delayed by the barrier is checked by the oracle on the simulations, not proved (they are separate tasks outside the model)",
-               "no operator restarts / watch-stream breaks inside C07 scenarios (a fresh watcher re-lists the current state; C19's subject)",
+               "fault sequences are outside C07's quantifier: a PATCH whose response is lost (exception out of patch_obj, swallowed by the "
+               "throttler) returns None to the worker, nothing is armed and the next (older) view is handled at once",
+               "watch-stream breaks, reconnects and re-listings (410) are generated; operator restarts are not (a fresh operator re-lists the current state; C14/C19's subject)",
                "times are multiples of 1/64 s; a timed-out sleep ends exactly at its deadline under virtual time (the theorems allow any lateness)",
                "GONE causes have no handlers (C05); `handlers` in the model excludes them"]
 
@@ -195,11 +199,29 @@ def gen_scenario(rng: Any, i: int) -> dict:
     if rng.random() < 0.35:
         timeline.append([t_quiet, "delete", "a"])
         t_quiet += 4 * horizon + 4
+    # re-listings and reconnects of the watch stream: inside a running (sleeping) change handler — the listed object is
+    # queued before that handler's PATCH and dequeued after it — and between an own write and its echo
+    breaks: list[dict] = []
+    if rng.random() < 0.3:
+        hows = ["410", "410", "410-now", "410-now", "eof", "conn", "eof-now"]
+        for _ in range(rng.choice([1, 1, 2, 3])):
+            if rng.random() < 0.55:
+                tgt = rng.choice([h for h in handlers if h["kind"] in ("create", "update")])
+                d = rng.choice([0.25, 0.5, 1.5])
+                k = rng.choice([0, 0, 1])
+                scr = list(tgt.get("script", []))
+                while len(scr) <= k:
+                    scr.append(tgt.get("default", "ok"))
+                scr[k] = ["sleep", d, rng.choice(["ok", "ok", ["temp", 0.5]])]
+                tgt["script"] = scr
+                breaks.append({"on": "sleep", "nth": rng.choice([1, 1, 2, 3]), "offset": rng.randrange(0, int(d * 64)), "how": rng.choice(hows)})
+            else:
+                breaks.append({"on": "write", "nth": rng.choice([1, 2, 2, 3, 4, 5]), "offset": rng.randrange(0, own + R + 9), "how": rng.choice(hows)})
     sc = {"seed": i, "handlers": handlers, "timeline": timeline, "objects": objects, "slips": slips,
           "settings": {"persistence.consistency_timeout": T, "queueing.idle_timeout": rng.choice([0.25, 1.0, 5.0, 5.0]),
-                       "execution.default_backoff": 1.0},
+                       "execution.default_backoff": 1.0, "watching.reconnect_backoff": 0.125},
           "c07": {"latency": L, "resp_latency": R, "own_delay": own, "foreign_delay": foreign, "jitter": jitter, "reactive": reactive,
-                  "echo_class": cls, "foreign_class": fcls},
+                  "breaks": breaks, "echo_class": cls, "foreign_class": fcls},
           "end": t_quiet + 2.0}
     if rng.random() < 0.2:
         sc["status_subresource"] = True
@@ -307,13 +329,24 @@ def oracle(ctx: Ctx, sc: dict, tr: dict) -> None:
             if not earlier or earlier[-1]["cycle"] in releasing or not c7["patch_init_empty"] or cyc["reason"] == "gone":
                 continue
             last = earlier[-1]
-            if int(cyc["rv"]) >= int(last["applied_rv"]):
+
+            def came_back(p: dict) -> bool:
+                return any(c2["rv"] == p["applied_rv"] and p["cycle"] <= c2["i"] <= cyc["i"] for c2 in cycles)
+
+            # every own patch so far has come back (an earlier one may have been lost with a broken stream: the worker
+            # rightly keeps waiting for it — the text promises no release then, see the observation in the report)
+            if all(came_back(p) for p in earlier if p["cycle"] not in releasing):
                 ctx.oracle_fail(
                     f"change handlers were held back at t={cyc['t0']} on resourceVersion {cyc['rv']} although the worker's last own "
                     f"PATCH result {last['applied_rv']} (applied at t={last['t_applied']}) had come back through the watch stream and no "
                     f"patch was pending",
                     {"scenario": sc, "cycle": cyc["i"], "patch": last},
                     {"site": "queueing.worker", "shape": "change handlers held back although the own last patch's version has come back"})
+            elif c7["consistency_time"] is not None and cyc["t0"] >= c7["consistency_time"]:
+                ctx.count("held_iteration", "an own patch's version was lost with a broken stream AND the deadline has passed, still held "
+                                            "(patch non-empty at the barrier: no sleep, hence no timeout) — liveness observation")
+            elif int(cyc["rv"]) >= int(last["applied_rv"]):
+                ctx.count("held_iteration", "newer view, the patched version itself was lost with a broken stream (held until the timeout)")
             else:
                 ctx.count("held_iteration", "view older than the own last patch (rightly held)")
         # a new arrival ends the barrier sleep at once: its own low-level processing is not held up
@@ -446,7 +479,8 @@ def abstract(sc: dict, tr: dict) -> list[dict]:
                         tp = ticks(cand[-1]["t_applied"])
                 it = {"ver": parse_ver(c["rv"]), "now": now, "dur": tmid - now, "pressure": bool(c7["pressure_mid"]), "wake": wake,
                       "lag": 0, "gone": c["reason"] == "gone", "required": required, "patchInit": bool(c7["patch_init_empty"]),
-                      "patchMid": bool(c7["patch_mid_empty"]), "patched": patched, "tp": tp, "tret": tret}
+                      "patchMid": bool(c7["patch_mid_empty"]), "patched": patched, "tp": tp, "tret": tret,
+                      "listed": c["event_type"] is None}
                 s = c7["sleep"]
                 steps.append({"event": it})
                 impl.append({"given": ticks(c["consistency_time"]),
@@ -482,7 +516,7 @@ def _sanity(sc: dict, tr: dict) -> None:
         raise RuntimeError(f"harness: {n_calls} change-handler calls but {n_inv} attributed to processing cycles")
     for life in tr["lives"]:
         rvs = [int(a[1]) for a in life["arrivals"] if a[1] != "EOS" and a[1] is not None]
-        if any(b <= a for a, b in zip(rvs, rvs[1:])):
+        if any(b < a for a, b in zip(rvs, rvs[1:])):     # equal: a re-listing shows the version the stream has shown
             raise RuntimeError(f"harness: the fake API delivered one object's events out of order: {rvs}")
 
 
@@ -529,6 +563,12 @@ def digest(sc: dict, tr: dict, tie: bool = True) -> dict:
     rec.count("latency_ticks", c7["latency"])
     rec.count("resp_latency_ticks", c7["resp_latency"])
     rec.count("foreign_edits", sum(1 for m in tr["marks"] if m.get("what") == "op" and m["op"][0] == "edit"))
+    for m in tr["marks"]:
+        if m.get("what") == "op" and m["op"][0] == "break":
+            rec.count("stream_breaks", m["op"][1])
+    rec.count("listed_events", "re-listed while the worker was expecting a version",
+              sum(1 for c in tr["cycles"] if c["event_type"] is None and c.get("consistency_time") is not None))
+    rec.count("listed_events", "listed", sum(1 for c in tr["cycles"] if c["event_type"] is None))
     nw = sum(int(l.get("nowait", 0)) for l in tr["lives"])
     if nw:
         rec.count("worker_wait", "timed-out wait found the backlog non-empty: event taken with get_nowait", nw)
